@@ -167,3 +167,46 @@ func clRestoredCount(c *Ctx) {
 		c.Check(fi.Dominates(ss, gs), fn, ss, "assembled store installed before it is measured", "")
 	}
 }
+
+// C05.c / C07.e: a delta item rejected by the duplicate check is freed.
+func clDeltaRestoreFrees(c *Ctx) {
+	p := c.P
+	fn := p.Func("nitro", "Nitro", "LoadFromDisk")
+	freeItem := p.Func("nitro", "Nitro", "freeItem")
+	ins2 := p.Func("skiplist", "Skiplist", "Insert2")
+	ins3 := p.Func("skiplist", "Skiplist", "Insert3")
+	found := false
+	for _, cl := range WithAnon(fn) {
+		fi := p.Info(cl)
+		for _, s := range p.CallSites(cl, ins2, ins3) {
+			call, ok := s.(*ssa.Call)
+			if !ok {
+				continue
+			}
+			found = true
+			item := strip(call.Call.Args[1])
+			var success ssa.Value
+			for _, r := range referrersOf(call) {
+				if e, ok := r.(*ssa.Extract); ok && e.Index == 1 {
+					success = e
+				}
+			}
+			if !c.Check(success != nil, cl, s, "delta insert result is examined", "the outcome of inserting a delta item is ignored") {
+				continue
+			}
+			okFree := false
+			for _, fr := range p.CallSites(cl, freeItem) {
+				if strip(callOf(fr).Args[1]) == item {
+					c.Check(fi.guardedByValue(fr, success, false), cl, fr, "delta item freed only when it was rejected", "a delta item that was inserted into the store is freed while linked")
+					if fi.guardedByValue(fr, success, false) {
+						okFree = true
+					}
+				}
+			}
+			c.Check(okFree, cl, s, "rejected delta item is freed", "a delta item rejected as duplicate is leaked")
+		}
+	}
+	if !found {
+		c.Check(false, fn, nil, "delta items are inserted with the duplicate-rejecting insert", "the delta phase no longer inserts items through Insert2/Insert3")
+	}
+}
